@@ -16,8 +16,9 @@ ROOT = os.path.dirname(os.path.dirname(os.path.abspath(__file__)))
 COQ = os.path.join(ROOT, "coq")
 THEORIES = os.path.join(COQ, "theories")
 BUILD = os.path.join(ROOT, "build")
-EVIDENCE = os.path.join(ROOT, "evidence")
 REPO = os.environ.get("QV_REPO", "/repo")
+# runs against a scratch tree (seed tests) must not overwrite the evidence of /repo itself
+EVIDENCE = os.path.join(ROOT, "evidence") if os.path.realpath(REPO) == "/repo" else os.path.join(ROOT, "build", "evidence_scratch")
 KNOWN = os.path.join(ROOT, "known_findings.json")
 
 COQC_TIMEOUT = int(os.environ.get("QV_COQC_TIMEOUT", "900"))
@@ -159,7 +160,8 @@ def prop_obligations(pid, files=None):
             src = open(path).read()
             names = re.findall(r"^(?:Theorem|Corollary)\s+(\w+)", src, re.M)
             theorems.extend(names)
-            if re.search(r"\b(Admitted|admit|Axiom|Parameter|Conjecture)\b", re.sub(r"\(\*.*?\*\)", "", src, flags=re.S)):
+            if re.search(r"\b(Admitted|admit|Axiom|Parameter|Conjecture)\b",
+                         re.sub(r'"[^"]*"', '""', re.sub(r"\(\*.*?\*\)", "", src, flags=re.S))):   # string literals are data
                 ok = False
                 log += f"{fn}: forbidden keyword\n"
             r = subprocess.run(
